@@ -338,8 +338,61 @@ func (e *EK) rawCompute(v ssa.Value) Kinds {
 		return e.Raw(v.X)
 	case *ssa.ChangeType:
 		return e.Raw(v.X)
+	case *ssa.Parameter:
+		return e.paramKinds(v)
 	}
 	return KUnknown
+}
+
+// paramKinds: the kinds an error-typed parameter of an unexported module function can hold = the
+// union, over all its call sites, of the kinds of the argument under the facts at the call
+// (context-insensitive). Unknown when the function can be called from outside the module or
+// through a function value.
+func (e *EK) paramKinds(prm *ssa.Parameter) Kinds {
+	fn := prm.Parent()
+	if fn == nil || !isErrorType(prm.Type()) || !e.P.InModule(fn) || fn.Parent() != nil {
+		return KUnknown
+	}
+	if obj, ok := fn.Object().(*types.Func); !ok || obj.Exported() {
+		return KUnknown
+	}
+	idx := -1
+	for i, q := range fn.Params {
+		if q == prm {
+			idx = i
+		}
+	}
+	sites := e.P.CallSitesOf(fn)
+	if idx < 0 || len(sites) == 0 {
+		return KUnknown
+	}
+	// a function whose value is taken (stored, passed) may be called from anywhere
+	for _, g := range e.P.Funcs {
+		taken := false
+		allInstrs(g, func(in ssa.Instruction) {
+			for _, op := range in.Operands(nil) {
+				if op == nil || *op != ssa.Value(fn) {
+					continue
+				}
+				if call, ok := in.(ssa.CallInstruction); ok && call.Common().Value == ssa.Value(fn) {
+					continue
+				}
+				taken = true
+			}
+		})
+		if taken {
+			return KUnknown
+		}
+	}
+	var k Kinds
+	for _, cs := range sites {
+		args := cs.Common().Args
+		if idx >= len(args) {
+			return KUnknown
+		}
+		k |= e.KindsPathwise(args[idx], cs.Block(), 4)
+	}
+	return k
 }
 
 // freeVarAlloc finds the Alloc bound to a free variable at the (unique) MakeClosure.
@@ -577,6 +630,42 @@ func (e *EK) SwallowOf(call *ssa.Call) *Swallow {
 				}
 				return
 			}
+			// the pending error is handed to a filter helper (`return x, keepUnlessExit(err)`): the
+			// helper's result carries on with the kinds the helper lets through; what it turns into
+			// nil is consumed by it
+			if cin, ok := in.(*ssa.Call); ok && cin != call {
+				if g := cin.Call.StaticCallee(); g != nil && e.P.InModule(g) && len(g.Params) == len(cin.Call.Args) {
+					rIdx := errResultIndex(g.Signature)
+					for key, en := range s {
+						for j, a := range cin.Call.Args {
+							if !has(en.vals, a) || rIdx < 0 {
+								continue
+							}
+							mask := e.PassMask(g, j, rIdx)
+							if mask == 0 {
+								continue
+							}
+							var rv ssa.Value = cin
+							if g.Signature.Results().Len() > 1 {
+								rv = nil
+								for _, r := range referrersOf(cin) {
+									if ex, ok := r.(*ssa.Extract); ok && ex.Index == rIdx {
+										rv = ex
+									}
+								}
+							}
+							if rv == nil {
+								continue
+							}
+							addSw(en.k&^mask, "turned into nil by "+shortName(g)+" at "+e.P.InstrPos(cin))
+							delete(s, key)
+							if k2 := en.k & mask; k2 != 0 {
+								s[keyOf([]ssa.Value{rv})] = &entry{vals: []ssa.Value{rv}, k: k2}
+							}
+						}
+					}
+				}
+			}
 			if ret, ok := in.(*ssa.Return); ok {
 				for _, en := range s {
 					if errIdx < 0 {
@@ -679,4 +768,45 @@ func (e *EK) KindsPathwise(v ssa.Value, b *ssa.BasicBlock, depth int) Kinds {
 		k |= e.refine(v, kp, fs)
 	}
 	return e.refine(v, k, F.At(b))
+}
+
+// PassMask: the kinds that an error passed as parameter j of module function g can still have when g
+// returns that same value as its result i (0 when g never returns the parameter itself). Computed by
+// giving the parameter every kind and refining by the facts at each return of the parameter.
+func (e *EK) PassMask(g *ssa.Function, j, i int) Kinds {
+	if j >= len(g.Params) || !isErrorType(g.Params[j].Type()) || len(g.Blocks) == 0 {
+		return 0
+	}
+	prm := g.Params[j]
+	all := KSyntax | KRuntime | KJson | KRaw | KForeign | KUnknown | e.AllSentinels()
+	saved, had := e.raw[prm]
+	e.raw[prm] = all
+	defer func() {
+		if had {
+			e.raw[prm] = saved
+		} else {
+			delete(e.raw, prm)
+		}
+	}()
+	F := FactsOf(g)
+	var mask Kinds
+	for _, r := range returnsOf(g) {
+		res := effectiveResults(r)
+		if i >= len(res) {
+			continue
+		}
+		switch x := res[i].(type) {
+		case *ssa.Parameter:
+			if x == prm {
+				mask |= e.KindsPathwise(prm, r.Block(), 4) &^ KNil
+			}
+		case *ssa.Phi:
+			for pi, pe := range x.Edges {
+				if pe == ssa.Value(prm) {
+					mask |= e.refine(prm, all, F.OnEdge(x.Block().Preds[pi], x.Block())) &^ KNil
+				}
+			}
+		}
+	}
+	return mask
 }
